@@ -1157,9 +1157,10 @@ fn cmd_run(cfg: &Cfg) -> i32 {
             "distinct_states": {"measure": "distinct host histories (event sequences incl. thread placement and perturbations) and distinct host fault vectors", "distinct_histories": total.distinct_histories.len(), "distinct_fault_vectors": total.distinct_fault_vectors.len()},
             "hooked_probe_sites": sites,
             "components": {
-                "real": ["o2o-impl parse/validate/expand built from the working tree (plain build: guard off = shipped code; hooked build: --cfg o2o_verif)", "syn 1.0.109 / syn 2.x, quote, proc-macro2 (fallback mode, span-locations)", "std::collections::HashMap + RandomState/SipHash (plain build)", "glibc malloc, real threads"],
-                "simulated": ["OS entropy (getrandom)", "wall/monotonic clock", "pid", "environment block", "cwd", "argv", "address-space layout (ASLR off + seeded heap perturbation + env size)", "thread placement and order of expansions", "container hash seeds and iteration order policy (hooked build)"],
-                "rustc_tier": "real cargo + rustc + o2o-macros dylib under the shim (both back-ends; quick: 2 runs per crate + reversed source order; thorough: 8 runs per crate + reversed source order)",
+                "real": ["o2o-impl parse/validate/expand built from the working tree (plain build: guard off = shipped code; second independent build of the same; atom build: guard off, atomic operations compiled as calls into shim/atomrt.c; hooked build: --cfg o2o_verif)", "syn 1.0.109 / syn 2.x, quote, proc-macro2 (fallback mode, span-locations)", "std::collections::HashMap + RandomState/SipHash (plain builds)", "glibc malloc (interposed only to offer scheduling points to members of concurrent groups), real threads, std's futex-based Mutex/RwLock/Once (a wait inside a concurrent group becomes a hand-over + spurious wake-up)"],
+                "simulated": ["OS entropy (getrandom, /dev/urandom)", "wall/monotonic clock", "pid", "environment block", "file system as seen during expansions (redirect / absent / durable writes kept or wiped)", "identity (host name, uid, cpu count, executable name, tty)", "cwd", "argv", "address-space layout (ASLR off + seeded heap perturbation + env size)", "thread placement and order of expansions", "interleaving of concurrent expansions (seeded baton; scheduling points: heap allocations, blocking waits, atomic operations in the atom build, seam yield points in the hooked build)", "container hash seeds and iteration order policy (hooked build)"],
+                "stubbed": ["proc_macro bridge: the host tier uses proc-macro2's fallback implementation (no rustc); the rustc tier runs the real bridge"],
+                "rustc_tier": "real cargo + rustc + o2o-macros dylib under the shim (both back-ends; quick: 2 runs per crate + one run as another package with the dependency renamed, modules reversed and items in other surroundings; thorough: 8 runs per crate + that run)",
             },
             "harness_determinism_guard": {"worlds_executed_twice": guard_worlds, "result": guard_note},
             "aslr_disabled_for_hosts": env.aslr_off,
